@@ -26,4 +26,5 @@ INVARIANTS
   Sys_RotationKeepsApprovals
   Sys_Frame
   Sys_Sound
+  Sys_RefinesITS
   Dump
